@@ -22,7 +22,7 @@ import (
 func Sort(slice []any, orderBy OrderByDefinition) (err error) {
 	defer func() {
 		if r := recover(); r != nil {
-			err = r.(error)
+			err = AsError(r)
 		}
 	}()
 	if len(orderBy) == 0 {
